@@ -1381,4 +1381,58 @@ theorem runProg_indep_impl (D : Dims) (hD : DPos D) (T : Tables α) (hT : NoTop 
 
 
 end One
+/-! ## the ACTNUM-only pre-pass -/
+
+section PreP
+variable {α : Type} [RealOps α]
+
+theorem nactive_replicate_true (n : Nat) : nactive (List.replicate n true) = n := by
+  induction n with
+  | zero => rfl
+  | succ n ih => simp [nactive, List.replicate_succ] at ih ⊢
+
+/-- the ACTNUM delivered by the pre-pass covers the grid -/
+theorem prepassAct_length (D : Dims) (hD : DPos D) (T : Tables α) (grid : List (Kw α)) (A : List Bool)
+    (h : prepassAct D T grid = some A) : A.length = D.size := by
+  unfold prepassAct at h
+  try simp only [] at h
+  have hw : WF D (initSt (List.replicate D.size true) : St α) :=
+    ⟨by simp [initSt], (fun p hp => by simp [initSt] at hp), (fun p hp => by simp [initSt] at hp)⟩
+  obtain ⟨r1, r2⟩ := scanSection_refines D hD T .grid (initSt (List.replicate D.size true)) hw (grid.filter Kw.inPrepass)
+  have hc : cSt (initSt (List.replicate D.size true) : St α) = initSt (List.replicate D.size true) := rfl
+  rw [hc] at r1
+  rw [← r1] at h
+  cases hs : scanSection .ref D T .grid (initSt (List.replicate D.size true)) (grid.filter Kw.inPrepass) with
+  | none => rw [hs] at h; cases h
+  | some s =>
+    rw [hs] at h
+    simp only [Option.map_some, cSt_ints_get] at h
+    have ws := r2 s hs
+    have ha := scanSection_act .ref D T .grid _ _ s hs
+    cases hg : sget s.ints "ACTNUM" with
+    | none =>
+      rw [hg] at h
+      simp only [Option.map_none, Option.some.injEq] at h
+      subst h
+      simp
+    | some a =>
+      rw [hg] at h
+      simp only [Option.map_some, Option.some.injEq] at h
+      subst h
+      have hl := wfstore_sget ws.ints hg
+      simp only [List.length_map]
+      rw [compress_length s.act a (by rw [hl, ws.act]), ha]
+      exact nactive_replicate_true D.size
+
+/-- **`EclipseState(deck)` as a whole (pre-pass + constructor + observation) under both semantics** -/
+theorem runDeck_refines (D : Dims) (hD : DPos D) (T : Tables α) (P : Prog α) :
+    runDeck .ref D T P = runDeck .impl D T P := by
+  unfold runDeck
+  cases h : prepassAct D T P.grid with
+  | none => rfl
+  | some A => exact runObserveG_refines D hD T A (prepassAct_length D hD T P.grid A h) P
+
+
+end PreP
+
 end OpmVerif.FieldProps
